@@ -492,23 +492,23 @@ func lgRunSchedule(t *testing.T, sc lgSched) (lines []map[string]any, hits map[s
 					return
 				}
 				if err != nil || out == nil {
-					r.emit(map[string]any{"src": "client", "ev": "Err", "p": p, "k": k, "code": -1})
+					r.emit(map[string]any{"src": "client", "ev": "Err", "p": p, "k": k, "code": -1, "n": n, "kind": kind})
 					return
 				}
 				resp := kmsg.NewPtrProduceResponse()
 				resp.SetVersion(9)
 				body, ok := protocol.SkipResponseHeader(resp.Key(), 9, out)
 				if !ok {
-					r.emit(map[string]any{"src": "client", "ev": "Err", "p": p, "k": k, "code": -3})
+					r.emit(map[string]any{"src": "client", "ev": "Err", "p": p, "k": k, "code": -3, "n": n, "kind": kind})
 					return
 				}
 				if e := resp.ReadFrom(body); e != nil {
-					r.emit(map[string]any{"src": "client", "ev": "Err", "p": p, "k": k, "code": -2})
+					r.emit(map[string]any{"src": "client", "ev": "Err", "p": p, "k": k, "code": -2, "n": n, "kind": kind})
 					return
 				}
 				pr := resp.Topics[0].Partitions[0]
 				if pr.ErrorCode != 0 {
-					r.emit(map[string]any{"src": "client", "ev": "Err", "p": p, "k": k, "code": int(pr.ErrorCode)})
+					r.emit(map[string]any{"src": "client", "ev": "Err", "p": p, "k": k, "code": int(pr.ErrorCode), "n": n, "kind": kind})
 					return
 				}
 				r.emit(map[string]any{"src": "client", "ev": "Ack", "p": p, "k": k, "base": pr.BaseOffset, "cnt": n, "kind": kind})
@@ -632,6 +632,14 @@ func lgRunSchedule(t *testing.T, sc lgSched) (lines []map[string]any, hits map[s
 						stt := plog.VerifStateLocked()
 						ev["next"], ev["st"] = stt.Next, stt
 						up = true
+						// offsets at or above the reopened log's next offset died with the old broker's buffer
+						refMu.Lock()
+						for b := range ref {
+							if b >= stt.Next {
+								delete(ref, b)
+							}
+						}
+						refMu.Unlock()
 					} else {
 						h.coordinator.Stop()
 					}
